@@ -287,7 +287,7 @@ def holdout_facts(src, out, problems):
                 raise Outside("`%s` before the Fisher-Yates loop" % st[:60])
             seen_tail.append(tail_tok)
             continue
-        if ignorable(st):
+        if ignorable(st) and not squash(st).startswith("constdouble"):
             continue
         raise Outside("statement of holdout_validation::init: `%s`" % st[:80])
     if skip is None or loop is None:
